@@ -219,10 +219,24 @@ def _enumerate_gates(circuit: Circuit) -> tp.Dict[Label, int]:
     result: tp.Dict[Label, int] = dict()
     for input_label in circuit.inputs:
         result[input_label] = len(result)
-    for gate_label, gate_ in circuit.gates.items():
-        if gate_.gate_type == gate.INPUT:
-            continue
-        result[gate_label] = len(result)
+    # Operands must get smaller identifiers than their users (decoder requirement),
+    # whatever the storage order is: post-order walk that follows the storage order.
+    for start_label in circuit.gates:
+        stack: tp.List[tp.Tuple[Label, bool]] = [(start_label, False)]
+        while stack:
+            gate_label, operands_done = stack.pop()
+            if gate_label in result:
+                continue
+            gate_ = circuit.get_gate(gate_label)
+            if gate_.gate_type == gate.INPUT:
+                continue
+            if operands_done:
+                result[gate_label] = len(result)
+                continue
+            stack.append((gate_label, True))
+            for operand_label in reversed(gate_.operands):
+                if operand_label not in result:
+                    stack.append((operand_label, False))
     return result
 
 
